@@ -136,6 +136,14 @@ def run(ctx):
             for size in range(0, min(N, 100 * mb) + 1):   # unary-nat model: keep the block count per layout bounded
                 jobs.append(('whole', size, mb, hdr, rt, hlen))
                 jobs.append(('header', size, mb, hdr, rt, hlen))
+        # tie-prone sizes: files in which some block starts at an offset where max_block/(1+2*rate) is (within 1e-9 of) a
+        # half-integer - the places where two algebraically equal float formulas for the interpolated rate round to
+        # different message sizes (generation and read-back must use the SAME rate there)
+        for (mb, hdr, rt, hlen) in [(255, 1024, (0.3, 0.5, 0.1), 32), (255, 300, (0.5, 0.1, 0.5), 8)]:
+            ts = tie_prone_sizes(mb, hdr, rt, hdr + 1, 12000, 10 if ctx.tier == 'quick' else 60)
+            ctx.count('tie_prone_sizes', len(ts))
+            for size in ts:
+                jobs.append(('whole', size, mb, hdr, rt, hlen))
         exprs = []
         for tool, size, mb, hdr, rt, hlen in jobs:
             if tool == 'whole':
@@ -187,6 +195,25 @@ def run(ctx):
         real_track(ctx, rng, 6 if ctx.tier == 'quick' else 40)
     finally:
         shutil.rmtree(d, ignore_errors=True)
+
+
+def tie_prone_sizes(mb, hdr, rt, lo, hi, limit):
+    """file sizes in [lo, hi] whose generation layout (simulated with the code's own float formulas) has a block starting
+    where mb/(1+2*rate) is within 1e-9 of a half-integer"""
+    out = []
+    for size in range(lo, hi + 1):
+        cur, hit = 0, False
+        while cur < size:
+            rate = rt[0] if cur < hdr else rt[1] + float(cur - hdr) * (rt[2] - rt[1]) / (size - hdr)
+            x = float(mb) / (1 + 2 * rate)
+            if abs((x % 1.0) - 0.5) < 1e-9 and cur >= hdr:
+                hit = True
+            cur += max(1, int(round(x, 0)))
+        if hit:
+            out.append(size)
+            if len(out) >= limit:
+                break
+    return out
 
 
 def rule_ms(mb, rate):
